@@ -18,6 +18,7 @@ func init() {
 	register("X1", 4, "expired keys are unobservable: in every read primitive of the keyspace (the functions bound to KeysExist, GetValues, GetExpiry, Randomkey) each site that reports an entry (result-map update, return value, append to the result) is reached only over the 'deadline not passed' edge of an expiry test of that entry, or its value is computed from such a test; the test has the right orientation (deadline.Before(now) = expired) and treats the zero deadline as alive", ruleX1)
 	register("X3", 4, "expiry-driven removal: every deletion performed because of a deadline (background sampler, lazy deletion in getValues, FilterExpiredKeys) is reached only over the 'deadline has passed' edge of an expiry test of the key being deleted", ruleX3)
 	register("X4", 1, "no inherited deadline: setValues copies the deadline of the previous entry only on the edge where that deadline has not passed", ruleX4)
+	register("KB", 2, "keep bookkeeping: the write primitives (setValues, setExpiry) never take a key out of the eviction caches or the store; only deletion, expiry, eviction and flush do", ruleKB)
 	register("A1", 3, "admission: in setValues every write to the store is preceded by the max-memory admission test, which returns an error exactly on (usage >= limit and limit != 0) and policy == noeviction", ruleA1)
 	register("A2", 4, "eviction bounds: in adjustMemoryUsage every deletion is reached only when usage >= limit, and every cycle through a deletion re-tests the limit", ruleA2)
 	register("A3", 2, "volatile candidates: a key enters the volatile-key index only with a non-zero deadline, and under a volatile-* policy a key enters the LFU/LRU cache only with a non-zero deadline", ruleA3)
@@ -182,7 +183,7 @@ func ruleX1(w *world.World, r *report.RuleResult) {
 		zeroOK := false
 		for _, b := range fn.Blocks {
 			if iff := world.IfOf(b); iff != nil {
-				if v, _, ok := zeroTimeTest(iff.Cond); ok && derivesFrom(v, isExpireAtField, 0) {
+				if v, _, ok := zeroTimeTest(world.CondValue(iff)); ok && derivesFrom(v, isExpireAtField, 0) {
 					zeroOK = true
 				}
 			}
@@ -252,10 +253,10 @@ func ruleX3(w *world.World, r *report.RuleResult) {
 			if iff == nil {
 				return f
 			}
-			if v, trueIsZero, ok := zeroTimeTest(iff.Cond); ok && derivesFrom(v, isExpireAtField, 0) && (si == 0) != trueIsZero {
+			if v, trueIsZero, ok := zeroTimeTest(world.CondValue(iff)); ok && derivesFrom(v, isExpireAtField, 0) && (si == 0) != trueIsZero {
 				f |= factNonZero
 			}
-			if f&factExpired != 0 && ec.viaHelper(iff.Cond) {
+			if f&factExpired != 0 && ec.viaHelper(world.CondValue(iff)) {
 				f |= factNonZero
 			}
 			return f
@@ -527,13 +528,13 @@ func ruleA1(w *world.World, r *report.RuleResult) {
 		if iff == nil {
 			return 0
 		}
-		if iff.Cond == ssa.Value(adm) {
+		if world.CondValue(iff) == ssa.Value(adm) {
 			if si == 1 {
 				return ADMIT
 			}
 			return OVER
 		}
-		if t, ok := isNoEvTest(iff.Cond); ok {
+		if t, ok := isNoEvTest(world.CondValue(iff)); ok {
 			if (si == 0) == t {
 				return NOEV
 			}
@@ -579,6 +580,33 @@ func ruleA1(w *world.World, r *report.RuleResult) {
 	}
 	if !found {
 		r.Fail(fname+"|refuse-with-error", w.Pos(fn.Pos()), "no return is reached exactly when usage >= limit and policy == noeviction: the refusal path is missing or its condition changed")
+	}
+	// all or nothing: the refusal is decided before the first entry of the call is written (a multi-key
+	// write that is refused half-way leaves a part of it stored - which part depends on map iteration
+	// order, so replicas applying the same command diverge)
+	{
+		const WROTE world.Facts = 1
+		genW := func(in ssa.Instruction) world.Facts {
+			if mu, ok := in.(*ssa.MapUpdate); ok && onPath(mu.Map, pStore) {
+				if _, inner := mu.Map.(*ssa.Lookup); inner {
+					return WROTE
+				}
+			}
+			return 0
+		}
+		may := world.May(fn, nil, genW, nil)
+		key := fname + "|refusal-before-first-write"
+		bad := false
+		for _, ret := range world.Returns(fn) {
+			f := world.FactsAt(must, ret, nil, nil)
+			if f&OVER != 0 && f&NOEV != 0 && world.FactsAt(may, ret, genW, nil)&WROTE != 0 {
+				bad = true
+				r.Fail(key, w.InstrPos(ret), "the max-memory refusal can be reached after entries of the same call have already been written: a refused multi-key write (MSET, restore of several keys) is applied in part, and which part depends on map iteration order - the command reports an error although it changed the dataset, and raft replicas applying the same entry end up with different keys")
+			}
+		}
+		if !bad && found {
+			r.OK(key, w.Pos(fn.Pos()), "the refusal return is unreachable once an entry has been written")
+		}
 	}
 	// the predicate itself: true exactly for (limit != 0 and usage >= limit)
 	pf := adm.Call.StaticCallee()
@@ -660,19 +688,19 @@ func ruleA2(w *world.World, r *report.RuleResult) {
 		if iff == nil {
 			return false
 		}
-		bo, ok := memLimitCmp(iff.Cond)
+		bo, ok := memLimitCmp(world.CondValue(iff))
 		if !ok {
 			return false
 		}
 		isMem := func(v ssa.Value) bool { fa, ok := v.(*ssa.FieldAddr); return ok && world.FieldName(fa) == "memUsed" }
 		isMax := func(v ssa.Value) bool { fa, ok := v.(*ssa.FieldAddr); return ok && world.FieldName(fa) == "MaxMemory" }
 		for _, rel := range []string{"<"} {
-			d := decideCmp(iff.Cond, isMem, isMax, rel)
+			d := decideCmp(world.CondValue(iff), isMem, isMax, rel)
 			_ = bo
 			// under usage<limit the edge taken is d; the OTHER edge is the usage>=limit edge
 			if d != -1 && si != d {
 				// make sure "=" and ">" both take this edge
-				if decideCmp(iff.Cond, isMem, isMax, "=") == si && decideCmp(iff.Cond, isMem, isMax, ">") == si {
+				if decideCmp(world.CondValue(iff), isMem, isMax, "=") == si && decideCmp(world.CondValue(iff), isMem, isMax, ">") == si {
 					return true
 				}
 			}
@@ -747,7 +775,7 @@ func ruleA2(w *world.World, r *report.RuleResult) {
 		if iff == nil {
 			return false
 		}
-		_, ok := memLimitCmp(iff.Cond)
+		_, ok := memLimitCmp(world.CondValue(iff))
 		return ok
 	}
 	n := 0
@@ -807,7 +835,7 @@ func ruleA3(w *world.World, r *report.RuleResult) {
 			if iff == nil {
 				return 0
 			}
-			if v, trueIsZero, ok := zeroTimeTest(iff.Cond); ok && derivesFrom(v, param, 0) {
+			if v, trueIsZero, ok := zeroTimeTest(world.CondValue(iff)); ok && derivesFrom(v, param, 0) {
 				if (si == 0) != trueIsZero {
 					return NONZERO
 				}
@@ -872,7 +900,7 @@ func ruleA3(w *world.World, r *report.RuleResult) {
 		var f world.Facts
 		f |= nonzeroGen(func(v ssa.Value) bool { return isExpireAtField(v) })(b, si)
 		if iff := world.IfOf(b); iff != nil {
-			if bo, ok := iff.Cond.(*ssa.BinOp); ok && bo.Op == token.EQL && si == 0 {
+			if bo, ok := world.CondValue(iff).(*ssa.BinOp); ok && bo.Op == token.EQL && si == 0 {
 				for _, v := range []ssa.Value{bo.X, bo.Y} {
 					if s, ok := world.ConstString(v); ok && strings.HasPrefix(s, "volatile-") {
 						f |= VOL
@@ -1243,7 +1271,7 @@ func keepsValue(mu *ssa.MapUpdate) bool {
 						return false
 					}
 					stt, ok := f.X.Type().Underlying().(*types.Struct)
-					return ok && stt.Field(f.Field).Name() == "Value" && fromStoreEntry(f.X)
+					return ok && world.CanonField(stt.Field(f.Field)) == "Value" && fromStoreEntry(f.X)
 				}, 0)
 			}
 		}
@@ -1317,10 +1345,19 @@ func ruleM2(w *world.World, r *report.RuleResult) {
 		if len(m.updates) > 0 {
 			// path form: on every path to the entry write on which the key already existed, the old
 			// entry's size has been subtracted
-			if bad := replaceWithoutSubtract(fn, m); bad != nil {
+			if bad := replaceWithoutSubtract(fn, m, evs); bad != nil {
 				r.Fail(name+"|replace-subtracts-on-every-path", w.InstrPos(bad), name+" can overwrite an existing entry on a path that did not subtract the size of the entry being replaced (the subtraction is conditional on something other than the entry's existence, e.g. on its deadline): the counter keeps the old entry's size for ever")
 			} else {
 				r.OK(name+"|replace-subtracts-on-every-path", w.InstrPos(m.updates[0]), "whenever the key already exists, the replaced entry's size is subtracted before the new entry is written")
+			}
+			// path form, other direction: once the old entry's size has been subtracted, the entry is
+			// replaced (or removed) on every path to a return
+			if len(m.subs) > 0 {
+				if bad := subtractWithoutReplace(fn, m); bad != nil {
+					r.Fail(name+"|subtract-then-replace", w.InstrPos(bad), name+" can return after it subtracted the size of the entry under a key but before that entry was replaced or removed: the entry stays in the store while the counter no longer includes it, so the reported usage falls below the dataset's size (and goes negative when the entry is deleted later)")
+				} else {
+					r.OK(name+"|subtract-then-replace", w.InstrPos(m.subs[0]), "every path from the subtraction of the old entry's size to a return replaces or removes that entry")
+				}
 			}
 			key := name + "|add-or-replace"
 			switch {
@@ -1403,6 +1440,41 @@ func ruleNM(w *world.World, r *report.RuleResult) {
 	}
 }
 
+// subtractWithoutReplace: a return reachable after a subtraction with no entry write / removal in
+// between. Returns the offending return or nil.
+func subtractWithoutReplace(fn *ssa.Function, m *memFn) ssa.Instruction {
+	const PENDING world.Facts = 1
+	subs := map[ssa.Instruction]bool{}
+	for _, s := range m.subs {
+		subs[s] = true
+	}
+	done := map[ssa.Instruction]bool{}
+	for _, l := range [][]ssa.Instruction{m.updates, m.dels, m.clrs} {
+		for _, u := range l {
+			done[u] = true
+		}
+	}
+	gen := func(in ssa.Instruction) world.Facts {
+		if subs[in] {
+			return PENDING
+		}
+		return 0
+	}
+	kill := func(in ssa.Instruction) world.Facts {
+		if done[in] {
+			return PENDING
+		}
+		return 0
+	}
+	may := world.May(fn, nil, gen, kill)
+	for _, ret := range world.Returns(fn) {
+		if world.FactsAt(may, ret, gen, kill)&PENDING != 0 {
+			return ret
+		}
+	}
+	return nil
+}
+
 // subtractWithoutEntry: a subtraction from the memory counter reachable without passing the
 // "key exists" edge of a comma-ok store lookup. Returns the offending subtraction or nil.
 func subtractWithoutEntry(fn *ssa.Function, m *memFn) ssa.Instruction {
@@ -1412,7 +1484,7 @@ func subtractWithoutEntry(fn *ssa.Function, m *memFn) ssa.Instruction {
 		if iff == nil {
 			return 0
 		}
-		c := iff.Cond
+		c := world.CondValue(iff)
 		neg := false
 		if u, ok := c.(*ssa.UnOp); ok && u.Op.String() == "!" {
 			c, neg = u.X, true
@@ -1435,11 +1507,19 @@ func subtractWithoutEntry(fn *ssa.Function, m *memFn) ssa.Instruction {
 
 // replaceWithoutSubtract: an entry write reachable over the "key exists" edge of a store lookup
 // without passing a subtraction from the memory counter. Returns the offending write or nil.
-func replaceWithoutSubtract(fn *ssa.Function, m *memFn) ssa.Instruction {
+func replaceWithoutSubtract(fn *ssa.Function, m *memFn, evs map[*ssa.Function]*memFn) ssa.Instruction {
 	const ACC world.Facts = 1 // accounted: key absent, or old size subtracted
 	subs := map[ssa.Instruction]bool{}
 	for _, s := range m.subs {
 		subs[s] = true
+	}
+	// a call of a function that removes an entry and subtracts its size (deleteKey) accounts for the old entry
+	for _, c := range world.Calls(fn) {
+		if f := c.Common().StaticCallee(); f != nil && f != fn {
+			if cm := evs[f]; cm != nil && len(cm.subs) > 0 && len(cm.dels) > 0 {
+				subs[c] = true
+			}
+		}
 	}
 	isExistsTest := func(cond ssa.Value) bool {
 		ex, ok := cond.(*ssa.Extract)
@@ -1454,7 +1534,7 @@ func replaceWithoutSubtract(fn *ssa.Function, m *memFn) ssa.Instruction {
 		if iff == nil {
 			return 0
 		}
-		c := iff.Cond
+		c := world.CondValue(iff)
 		neg := false
 		if u, ok := c.(*ssa.UnOp); ok && u.Op.String() == "!" {
 			c, neg = u.X, true
@@ -1501,4 +1581,68 @@ func replaceWithoutSubtract(fn *ssa.Function, m *memFn) ssa.Instruction {
 		}
 	}
 	return nil
+}
+
+// ---- KB ----
+
+// ruleKB: an overwrite keeps the key's eviction bookkeeping (access count / recency). The write
+// primitives must not, on their own (synchronous, non-goroutine) path, call a function that removes
+// store entries or removes a key from an eviction cache.
+func ruleKB(w *world.World, r *report.RuleResult) {
+	evs := memEvents(w)
+	removes := func(f *ssa.Function) string {
+		if f == nil {
+			return ""
+		}
+		if m := evs[f]; m != nil && len(m.dels) > 0 {
+			return "removes store entries"
+		}
+		if f.Signature.Recv() != nil && f.Name() == "Delete" && strings.Contains(f.Signature.Recv().Type().String(), "internal/eviction.Cache") {
+			return "removes the key from an eviction cache"
+		}
+		if s := f.String(); s == "container/heap.Remove" || s == "container/heap.Pop" {
+			return "removes an entry from a cache heap"
+		}
+		return ""
+	}
+	for _, field := range []string{"SetValues", "SetExpiry"} {
+		fn := w.Binding().Field[field]
+		if fn == nil {
+			r.Fail("binding|"+field, "", "keyspace primitive "+field+" not found in the HandlerFuncParams binding")
+			continue
+		}
+		name := world.FuncName(fn)
+		key := name + "|keeps-bookkeeping"
+		var bad []string
+		seen := map[*ssa.Function]bool{}
+		var walk func(f *ssa.Function, depth int, chain string)
+		walk = func(f *ssa.Function, depth int, chain string) {
+			if seen[f] || depth > 2 {
+				return
+			}
+			seen[f] = true
+			for _, c := range world.Calls(f) {
+				if _, isGo := c.(*ssa.Go); isGo {
+					continue // the asynchronous cache update / eviction pass is a different concern (A2)
+				}
+				g := c.Common().StaticCallee()
+				if g == nil {
+					continue
+				}
+				if why := removes(g); why != "" {
+					bad = append(bad, fmt.Sprintf("%s%s at %s (%s)", chain, world.FuncName(g), w.InstrPos(c), why))
+					continue
+				}
+				if world.InModule(g) && g.Blocks != nil && world.ShortPkg(world.PkgOf(g)) == "sugardb" {
+					walk(g, depth+1, chain+world.FuncName(g)+" -> ")
+				}
+			}
+		}
+		walk(fn, 0, "")
+		if len(bad) > 0 {
+			r.Fail(key, w.Pos(fn.Pos()), fmt.Sprintf("%s calls %s: overwriting (or re-dating) a key that stays in the dataset drops its access count / recency and its volatile-index entry, so LFU/LRU evict it as if it were new and the policy's order is lost", name, strings.Join(bad, "; ")))
+		} else {
+			r.OK(key, w.Pos(fn.Pos()), "no synchronous call from the write primitive removes store entries or cache entries")
+		}
+	}
 }
